@@ -2,9 +2,9 @@ SPECIFICATION Spec
 CONSTANTS
   Cfgs <- CfgsQs
   Steps = {1}
-  MaxEv = 6
+  MaxEv = 7
 INVARIANTS TypeOK ExpiryExact ReadIdleOnTime PingOnTime RespHdrOnTime IdleOnTime ShutOnTime WriteOnTime
   HealthCheckAlive NoPingWhenDisabled AtMostOnePingInFlight PingsSpaced IdleOnlyWhenNoStreams
-  GoAwayBounded SettingsBounded PrefaceBounded ClosedIsQuiet
+  GoAwayBounded SettingsBounded PrefaceBounded ClosedIsQuiet NoLateHealthCheck
 PROPERTIES QuietStep ClosedForever
 CHECK_DEADLOCK FALSE
